@@ -14,6 +14,7 @@ from pyab_experiment.data_structures.syntax_tree import (
 )
 from pyab_experiment.language.lexer import ExperimentLexer
 from pyab_experiment.sly import Parser
+from pyab_experiment.sly.yacc import YaccError
 
 
 class ExperimentParser(Parser):
@@ -34,6 +35,14 @@ class ExperimentParser(Parser):
         ("left", KW_AND),
         ("left", KW_NOT),
     )
+
+    def error(self, token):
+        """A syntax error is fatal. Without this the LR error recovery skips
+        tokens (or a whole broken definition) and compiles what follows."""
+        if token:
+            lineno = getattr(token, "lineno", 0)
+            raise YaccError(f"Syntax error at line {lineno}, token={token.type}")
+        raise YaccError("Syntax error: unexpected end of input")
 
     @_("header_id LBRACE opt_header_salt opt_splitter conditional RBRACE")
     def header(self, p):
